@@ -219,6 +219,9 @@ Proof. intros Hw. unfold ainv. cbn. repeat split; auto. apply ans_rev_mono. exac
 
 Lemma ainv_set_in w i : ainv w -> ainv (set_in w i).
 Proof. auto. Qed.
+Lemma ainv_starved w : ainv w -> ainv (logi Starved w).
+Proof. apply ainv_logi. discriminate. Qed.
+Ltac asolve := repeat first [apply ainv_say | apply ainv_starved]; auto.
 Lemma ainv_set_fs w f : ainv w -> ainv (set_fs w f).
 Proof. auto. Qed.
 Lemma ainv_touch o p ok w : ainv w -> ainv (touch o p ok w).
@@ -299,7 +302,8 @@ Proof.
   - apply Hgo. destruct (c_preserve cfg); auto. apply ainv_apply_op; auto.
   - pose proof (ainv_apply_op OMkdir (fs_mkdir (w_fs w) (c_cwd cfg) np mode (eff_umask cfg)) w Hw) as X.
     fold (do_mkdir cfg np mode w) in X.
-    destruct (do_mkdir cfg np mode w) as [go w1]. cbn [snd] in X. apply Hgo. auto.
+    destruct (do_mkdir cfg np mode w) as [go w1]. cbn [snd] in X. apply Hgo.
+    destruct (go && c_preserve cfg && c_dirmode cfg); auto. apply ainv_apply_op; auto.
 Qed.
 
 Lemma handle_file_ainv np mode size se tv cont w :
@@ -316,14 +320,14 @@ Proof.
   { unfold w2. apply ainv_say. destruct (ex && c_preserve cfg); auto. apply ainv_apply_op; auto. }
   pose proof (ainv_data_loop (S (length (w_in w2))) (blk_cnt cfg) p size 0%Z [] 0 0 w2 H2) as HD.
   destruct (data_loop (S (length (w_in w2))) (blk_cnt cfg) p size 0 [] 0 0 w2) as [| |w3|w3]; cbn [fst]; auto.
-  - apply ainv_say; auto.
+  - asolve.
   - pose proof (ainv_apply_op OTrunc (Some p, fs_truncate (w_fs w3) p size) w3 HD) as Y.
     fold (on_fd OTrunc p (fs_truncate (w_fs w3) p size) w3) in Y.
     destruct (on_fd OTrunc p (fs_truncate (w_fs w3) p size) w3) as [tok w4]. cbn [snd] in Y.
     set (w5 := if tok then w4 else say (Err ETrunc) w4).
     assert (H5 : ainv w5) by (unfold w5; destruct tok; auto; apply ainv_say; auto).
     destruct (w_in w5) as [|r inp].
-    + cbn. apply ainv_say; auto.
+    + cbn [fst]. asolve.
     + destruct (negb (r =? 0)).
       * cbn. apply ainv_say. auto.
       * destruct (se && tok).
@@ -347,8 +351,9 @@ Proof.
   cbn [loop].
   pose proof (read_line_ok (l_buf st) (w_in w)) as Hrl.
   destruct (read_line (l_buf st) (w_in w)) as [| |inp| |buf cp ch inp]; cbn [fst]; auto.
-  - apply ainv_say. auto.
-  - apply ainv_say. auto.
+  - asolve.
+  - asolve.
+  - asolve.
   - destruct Hrl as (Hl & Hb & H2 & Hlen).
     destruct (buf_set_ok buf cp 0 Hb Hl) as (buf1 & E1 & Hl1 & _ & Hin1 & Hne1). rewrite E1.
     destruct buf1 as [|b0 rest1]; [congruence|].
